@@ -28,7 +28,9 @@ ASSUMPTIONS = [
 ]
 BOUNDS = {"quick": dict(dof="1 (whole-step), 1-2 (per-stage)", whole_step="SymplecticEuler, ABAs5o6H"),
           "thorough": dict(dof="1-2", whole_step="all three schemes (1 d.o.f.), SymplecticEuler and ABAs5o6H with 2 d.o.f.")}
-OUTSIDE = ["bounded long-time energy error (a consequence; backward error analysis)", "IEEE rounding"]
+OUTSIDE = ["bounded long-time energy error (a consequence; backward error analysis)", "IEEE rounding",
+           "the WHOLE-step polynomial identity for ABAs5o6H with 2 d.o.f. and for BABs9o7H (does not finish in 20 min): these are decided per stage "
+           "(every stage factor symplectic and of drift/kick form; closure under composition is the trusted mathematical base)"]
 
 
 # ---------------------------------------------------------------------------------------------- dual numbers
@@ -184,9 +186,11 @@ def instances(tier):
             out.append(dict(id="reversible-%s-dof%d" % (nm, dof), kind="reverse", cls=nm, dof=dof, budget=b))
         for k in ([2] if quick else [1, 2, 3]):
             out.append(dict(id="reversible-after-rhs-fault%d-%s-dof1" % (k, nm), kind="reverse", cls=nm, dof=1, fault_at=k, budget=b))
-        whole = [1] if quick else [1, 2]
+        # whole-step identity: the polynomial M^T J M - J of the 5-stage scheme with 2 d.o.f. and of the 9-stage scheme does not finish
+        # within 20 minutes (measured: killed at the wall limit) - those cases are covered per stage only (see OUTSIDE)
+        whole = [1] if (quick or nm == "ABAs5o6HSolver") else [1, 2]
         if nm == "BABs9o7HSolver":
-            whole = [] if quick else [1]
+            whole = []
         for dof in whole:
             out.append(dict(id="whole-step-%s-dof%d" % (nm, dof), kind="whole", cls=nm, dof=dof, budget=b))
     out.append(dict(id="mask-constructor", kind="mask_ctor", cls="SymplecticEulerSolver", budget=b))
@@ -421,16 +425,17 @@ def _mask_default_after_custom(c, inst):
     c.case()
     got = [bool(x) for x in np.asarray(integ.staggered_mask).reshape(-1)]
     c.check("c10.mask.default_mask_is_second_half_whatever_was_built_before", got == default, info=dict(got=got, want=default))
-    rhs = SeparableDualRhs(c, default)
-    y0 = _state(c, n)
-    st, r = run(integ, rhs, t, y0, {}, h)
-    if st != "ok":
-        c.check("c10.mask.step_runs", False, info=repr(r))
-        return
-    _, (dT, dY) = r
-    y1 = [Dual.lift(a_, n) + Dual.lift(b_, n) for a_, b_ in zip(list(y0), list(dY))]
-    defect = _symplectic_defect(_grad_matrix(y1), _J(n, default))
-    c.check("c10.mask.default_step_after_custom_mask_is_symplectic", c.all([_zero(c, x) for x in defect]))
+    if inst["cls"] == "SymplecticEulerSolver":      # (the whole-step identity of the higher-order schemes in 4 variables is out of reach)
+        rhs = SeparableDualRhs(c, default)
+        y0 = _state(c, n)
+        st, r = run(integ, rhs, t, y0, {}, h)
+        if st != "ok":
+            c.check("c10.mask.step_runs", False, info=repr(r))
+            return
+        _, (dT, dY) = r
+        y1 = [Dual.lift(a_, n) + Dual.lift(b_, n) for a_, b_ in zip(list(y0), list(dY))]
+        defect = _symplectic_defect(_grad_matrix(y1), _J(n, default))
+        c.check("c10.mask.default_step_after_custom_mask_is_symplectic", c.all([_zero(c, x) for x in defect]))
     # and the earlier integrator keeps its own mask
     got_o = [bool(x) for x in np.asarray(other.staggered_mask).reshape(-1)] if other is not None and hasattr(other, "staggered_mask") else None
     c.check("c10.mask.custom_mask_integrator_unchanged", got_o == custom, info=dict(got=got_o))
